@@ -24,6 +24,11 @@ type scriptedAnalyzer struct {
 	// lastSelect remembers the most recent Select per action hash.
 	lastSelect map[string]*selRec
 	calls      []learnerCall // terminal learner calls of the current step
+	// real, when set, is the repository's own FallbackAnalyzer: the scripted
+	// analyzer then only records and judges what the real one decides
+	// (smallest size class first, the action's timeout, one retry on the
+	// largest size class, never any background learning).
+	real initialsizeclass.Analyzer
 }
 
 type selRec struct {
@@ -82,13 +87,23 @@ func (a *scriptedAnalyzer) Analyze(ctx context.Context, digestFunction digest.Fu
 		panic(fmt.Sprintf("harness: analyzer got unknown action %v", action))
 	}
 	rec := &selRec{id: len(a.selectors), action: as}
+	sel := &selector{a: a, rec: rec}
+	if a.real != nil {
+		rs, err := a.real.Analyze(ctx, digestFunction, action)
+		if err != nil {
+			a.w.violate("C07/fallback-analyzer-wrong-choice", fmt.Sprintf("FallbackAnalyzer.Analyze failed for action#%d whose timeout %v is within the permitted range: %v", as.idx, as.action.Timeout, err))
+			return nil, err
+		}
+		sel.real = rs
+	}
 	a.selectors = append(a.selectors, rec)
-	return &selector{a, rec}, nil
+	return sel, nil
 }
 
 type selector struct {
-	a   *scriptedAnalyzer
-	rec *selRec
+	a    *scriptedAnalyzer
+	rec  *selRec
+	real initialsizeclass.Selector
 }
 
 func (s *selector) checkLock(what string) {
@@ -114,8 +129,20 @@ func (s *selector) Select(sizeClasses []uint32) (int, time.Duration, time.Durati
 	s.rec.state = "selected"
 	s.rec.step = a.w.k.Step
 	s.rec.sizeClasses = append([]uint32(nil), sizeClasses...)
-	s.rec.index = t.Choice(len(sizeClasses))
 	full := actionTimeout(s.rec.action)
+	if s.real != nil {
+		idx, expected, timeout, rl := s.real.Select(sizeClasses)
+		s.rec.index, s.rec.expected, s.rec.timeout = idx, expected, timeout
+		if idx != 0 || expected != full || timeout != full || rl == nil {
+			a.w.violate("C07/fallback-analyzer-wrong-choice", fmt.Sprintf("FallbackAnalyzer chose size class index %d, expected duration %s, timeout %s (learner %v) for action#%d with timeout %s on size classes %v; documented: smallest size class, the action's timeout for both", idx, expected, timeout, rl != nil, s.rec.action.idx, full, sizeClasses))
+		}
+		a.lastSelect[s.rec.action.hash] = s.rec
+		a.w.k.Probe("real_fallback_analyzer_selected")
+		l := a.newLearner(s.rec.action, "fg", idx == len(sizeClasses)-1, full, idx)
+		l.real = rl
+		return idx, expected, timeout, l
+	}
+	s.rec.index = t.Choice(len(sizeClasses))
 	s.rec.timeout = pick(t, []time.Duration{full, full / 2, 10 * time.Second})
 	if s.rec.timeout > full {
 		s.rec.timeout = full
@@ -132,17 +159,21 @@ func (s *selector) Abandoned() {
 		s.a.w.violate("C07/selector-called-twice", fmt.Sprintf("selector #%d for action#%d: Abandoned after %s", s.rec.id, s.rec.action.idx, s.rec.state))
 	}
 	s.rec.state = "abandoned"
+	if s.real != nil {
+		s.real.Abandoned()
+	}
 }
 
 func (a *scriptedAnalyzer) newLearner(as *actionSpec, kind string, largest bool, origTO time.Duration, classIdx int) *learner {
 	rec := &learnRec{id: len(a.learners), action: as, kind: kind, largest: largest, origTO: origTO, classIdx: classIdx}
 	a.learners = append(a.learners, rec)
-	return &learner{a, rec}
+	return &learner{a: a, rec: rec}
 }
 
 type learner struct {
-	a   *scriptedAnalyzer
-	rec *learnRec
+	a    *scriptedAnalyzer
+	rec  *learnRec
+	real initialsizeclass.Learner
 }
 
 func (l *learner) terminal(call string) {
@@ -159,6 +190,19 @@ func (l *learner) Succeeded(duration time.Duration, sizeClasses []uint32) (int, 
 	l.terminal("succeeded")
 	t := l.a.w.t
 	c := learnerCall{rec: l.rec, call: "succeeded", duration: duration}
+	if l.real != nil {
+		idx, expected, timeout, bgl := l.real.Succeeded(duration, sizeClasses)
+		if bgl != nil {
+			l.a.w.violate("C07/fallback-analyzer-wrong-choice", fmt.Sprintf("FallbackAnalyzer asked for background learning (index %d) after action#%d succeeded", idx, l.rec.action.idx))
+			bg := l.a.newLearner(l.rec.action, "bg", idx == len(sizeClasses)-1, l.rec.origTO, idx)
+			bg.real = bgl
+			c.bg = bg.rec
+			l.a.calls = append(l.a.calls, c)
+			return idx, expected, timeout, bg
+		}
+		l.a.calls = append(l.a.calls, c)
+		return 0, 0, 0, nil
+	}
 	if l.rec.kind != "bg" && t.Bool(1, 3) {
 		idx := t.Choice(len(sizeClasses))
 		bg := l.a.newLearner(l.rec.action, "bg", idx == len(sizeClasses)-1, l.rec.origTO, idx)
@@ -175,6 +219,24 @@ func (l *learner) Failed(timedOut bool) (time.Duration, time.Duration, initialsi
 	l.terminal("failed")
 	t := l.a.w.t
 	c := learnerCall{rec: l.rec, call: "failed", timedOut: timedOut}
+	if l.real != nil {
+		expected, timeout, nl := l.real.Failed(timedOut)
+		if (nl != nil) != !l.rec.largest || (nl != nil && (expected != l.rec.origTO || timeout != l.rec.origTO)) {
+			l.a.w.violate("C07/fallback-analyzer-wrong-choice", fmt.Sprintf("FallbackAnalyzer answered the failure of action#%d on size class index %d (largest=%v) with retry=%v expected duration %s timeout %s; documented: retry exactly when it did not run on the largest size class, with the action's timeout %s", l.rec.action.idx, l.rec.classIdx, l.rec.largest, nl != nil, expected, timeout, l.rec.origTO))
+		}
+		if nl != nil {
+			c.retry = true
+			l.a.retryEvents[l.rec.action.hash]++
+			l.a.calls = append(l.a.calls, c)
+			l.a.w.k.Probe("retry_on_largest")
+			l.a.w.k.Probe("real_fallback_analyzer_retry")
+			next := l.a.newLearner(l.rec.action, "fg-largest", true, l.rec.origTO, -1)
+			next.real = nl
+			return expected, timeout, next
+		}
+		l.a.calls = append(l.a.calls, c)
+		return 0, 0, nil
+	}
 	if !l.rec.largest && l.rec.kind == "fg" && t.Bool(3, 4) {
 		c.retry = true
 		l.a.retryEvents[l.rec.action.hash]++
@@ -188,5 +250,8 @@ func (l *learner) Failed(timedOut bool) (time.Duration, time.Duration, initialsi
 
 func (l *learner) Abandoned() {
 	l.terminal("abandoned")
+	if l.real != nil {
+		l.real.Abandoned()
+	}
 	l.a.calls = append(l.a.calls, learnerCall{rec: l.rec, call: "abandoned"})
 }
